@@ -6,6 +6,16 @@ PENDING = "check not built yet in this round (specification and driver in progre
 
 # id -> (level text, level note, technique, design ref)
 BUILT = {
+ "C14": ("Views.tla: a pool of view objects over parent screens; every operation (subset of a subset, combine, concat, invert, "
+         "observed/unobserved split, get_plate, unique-condition filter, to_screen) creates a new object and NoAliasing requires "
+         "every existing object unchanged; TLC explores all compositions up to 4/5 objects on fixtures with duplicate, swapped "
+         "and control-neighbour conditions; explored behaviours and random longer ones are executed on real "
+         "Screen/ScreenSubset/Plate objects and TraceViews compares, after every operation, the selection vector, the "
+         "per-row content and the ids of EVERY object in the pool, the refusal of foreign parents, and the rows of "
+         "materialised screens in order.",
+         "the unique-condition filter may keep any representative of a class (the statement does not say which).",
+         "TLA+ state machine + TLC exhaustive; spec->code replay of explored behaviours; code->spec trace validation",
+         "5/C14"),
  "C19": ("Orchestrator.tla models the script (scan transcribed line by line, decide, per-entry rmtree, the two mkdirs of makedirs, "
          "launch with choice of workflow and inputs), the launched pipeline (one Publish per file, any order allowed by the "
          "process DAG of the workflow launched, incl. the prospective metadata job that is independent of the step's outputs), "
